@@ -339,14 +339,15 @@ def real_timers(v, tier, seed):
             if os.path.exists(fail):
                 os.unlink(fail)
             n = ntimers if s % 3 else ntimers // 4          # small populations too (near-empty heaps)
-            rc, out, err = sh([drv, str(s), str(n), str(span), fail], timeout=400)
+            rc, out, err = sh([drv, str(s), str(n), str(span), fail], timeout=180)
             return s, n, rc, out, err, fail
         with concurrent.futures.ThreadPoolExecutor(procs) as ex:
             res = list(ex.map(one, seeds))
         for s, n, rc, out, err, fail in res:
-            if rc in (2, 70, 71):
+            if rc in (2, 70, 71, 124):
                 what = {2: "an oracle (invariant of spec/Timer.tla) failed on a real timer", 70: "crash inside libdispatch",
-                        71: "Fires: an armed, unsuspended, uncancelled timer never fired"}[rc]
+                        71: "Fires: an armed, unsuspended, uncancelled timer never fired",
+                        124: "the population (normally ~2 s) did not complete within 180 s: timers or the driver's queues are stuck"}[rc]
                 if os.path.exists(fail):
                     p = save_replay(PROP, "timer_seed%d.json" % s, src=fail)
                 else:
@@ -413,7 +414,7 @@ def timer_traces(v, tier, seed):
         for f in (tr, fail):
             if os.path.exists(f):
                 os.unlink(f)
-        rc, out, err = sh([drv, str(s), str(ntimers), str(span), fail, tr], timeout=400)
+        rc, out, err = sh([drv, str(s), str(ntimers), str(span), fail, tr], timeout=180)
         if rc != 0:
             return s, rc, out, err, fail, None, None, ""
         j = json.loads(out.strip().splitlines()[-1])
@@ -427,7 +428,7 @@ def timer_traces(v, tier, seed):
     with concurrent.futures.ThreadPoolExecutor(4) as ex:
         res = list(ex.map(one, seeds))
     for s, rc, out, err, fail, j, r, why in res:
-        if rc in (2, 70, 71):
+        if rc in (2, 70, 71, 124):
             p = save_replay(PROP, "timer_seed%d.json" % s, src=fail) if os.path.exists(fail) else \
                 save_replay(PROP, "timer_seed%d.json" % s, json.dumps({"seed": s, "ntimers": ntimers, "span_ms": span, "stderr": err[-3000:]}))
             v.violation("real timers (trace mode, seed %d): %s" % (s, " ".join(l for l in err.splitlines() if "ORACLE-FAIL" in l or "CRASH" in l)[:1200]), p)
